@@ -20,7 +20,7 @@ RULE = (
     "recommendation must be bit-identical, and the domain object handed to the algorithm must afterwards equal a deep copy taken "
     "before construction in values, element types and inner-list identity. subcheck 'interleave': a Hypothesis RuleBasedStateMachine "
     "holds two independently constructed instances (RNG-free algorithms on RNG-free partitions) and Hypothesis chooses the "
-    "interleaving of whole rounds (step_A / step_B) and of split rounds (pull_A ... calls on B ... receive_A); each instance's sequence must equal the one it produces alone. subcheck 'process' : the same "
+    "subcheck 'twins' (two instances of the same class on the same partition class and the same domain list object, alternating for up to 150 rounds each) and the interleaving of whole rounds (step_A / step_B) and of split rounds (pull_A ... calls on B ... receive_A); each instance's sequence must equal the one it produces alone. subcheck 'process' : the same "
     "case is run in fresh subprocesses under PYTHONHASHSEED in {0, 1, 12345}, one of them after allocating garbage (shifts object ids), "
     "and once more inside the worker itself right after a 'polluter' instance of the same algorithm class on another domain (the "
     "worker has run hundreds of other instances by then); all outputs must be identical. non-trivial = >= 20 rounds, point-dependent rewards and (interleave) >= 5 switches between the two "
@@ -101,12 +101,13 @@ def check_repeat(case):
 # ------------------------------------------------------------------ interleaving
 
 
-def run_interleaved(caseA, caseB, schedule):
+def run_interleaved(caseA, caseB, schedule, share_domain=False):
     """Returns (pointsA, pointsB, error) for the interleaved execution."""
     pts = {"A": [], "B": []}
+    shared = copy.deepcopy(caseA["domain"]) if share_domain else None
     with contextlib.ExitStack() as st_:
-        sess = {"A": st_.enter_context(Session(caseA, record_partitions=False)),
-                "B": st_.enter_context(Session(caseB, record_partitions=False))}
+        sess = {"A": st_.enter_context(Session(caseA, record_partitions=False, domain_obj=shared)),
+                "B": st_.enter_context(Session(caseB, record_partitions=False, domain_obj=shared))}
         try:
             sess["A"].construct()
             sess["B"].construct()
@@ -132,7 +133,9 @@ def run_interleaved(caseA, caseB, schedule):
 def check_interleave(case):
     A, B, sched = case["A"], case["B"], case["schedule"]
     classes = ["pair:%s+%s" % (algo_label(A["algo"]), algo_label(B["algo"]))]
-    ia, ib, err = run_interleaved(A, B, sched)
+    ia, ib, err = run_interleaved(A, B, sched, share_domain=bool(case.get("share_domain")))
+    if case.get("share_domain"):
+        classes.append("shared-domain-object")
     if err:
         return Outcome(aborted="exception:" + err, classes=classes)
     for who, got, c in (("A", ia, A), ("B", ib, B)):
@@ -189,10 +192,21 @@ def make_machine(col, sub):
             A = data.draw(rngfree_case())
             same = data.draw(st.integers(0, 9)) < 6
             B = data.draw(rngfree_case(name=A["algo"]["name"] if same else None))
+            share = len(A["domain"]) == len(B["domain"]) and data.draw(st.integers(0, 2)) == 0
+            if share:
+                # users routinely hand the same domain list to several instances
+                B = dict(B)
+                B["domain"] = copy.deepcopy(A["domain"])
+                if B["partition"]["cls"] != A["partition"]["cls"] and data.draw(st.booleans()):
+                    B["partition"] = copy.deepcopy(A["partition"])
             self.case = {"A": A, "B": B, "schedule": ""}
+            shared = None
+            if share:
+                self.case["share_domain"] = True
+                shared = copy.deepcopy(A["domain"])
             try:
-                self.sess["A"] = self.stack.enter_context(Session(A, record_partitions=False))
-                self.sess["B"] = self.stack.enter_context(Session(B, record_partitions=False))
+                self.sess["A"] = self.stack.enter_context(Session(A, record_partitions=False, domain_obj=shared))
+                self.sess["B"] = self.stack.enter_context(Session(B, record_partitions=False, domain_obj=shared))
                 self.sess["A"].construct()
                 self.sess["B"].construct()
             except Exception as e:  # noqa: BLE001
@@ -369,6 +383,29 @@ def repeat_cases(draw, tier):
 
 
 @st.composite
+def twin_cases(draw, tier):
+    """Two instances of the SAME class on the SAME partition class and the SAME domain list object, with
+    independently drawn parameters and rewards, alternating for up to 150 rounds each: where state shared
+    through a class attribute, a module global or a cache keyed by the arguments' identity shows."""
+    name = draw(st.sampled_from(RNG_FREE_ALGOS + ["POO", "POO", "GPO", "PCT", "VPCT"]))
+    d = draw(st.integers(1, 2))
+    dom = draw(gen.domains(max_d=d, min_d=d))
+    pspec = draw(st.sampled_from([{"cls": "BinaryPartition"}, {"cls": "DimensionBinaryPartition"}])) if d == 1 else {"cls": "DimensionBinaryPartition"}
+    out = {}
+    for who in "AB":
+        aspec = draw(gen.algo_spec(name, d, pspec, n_range=(100, 300), poo_ok_only=True, gpo_ok_only=True,
+                                   base=None))
+        rw = draw(gen.rewards(laws=["peak", "peakpos", "bump", "noise"], d=d, T=150, max_over=0))
+        out[who] = {"algo": aspec, "partition": pspec, "domain": dom, "rng": {"mode": "seed", "seed": draw(st.integers(0, 999))},
+                    "T": 0, "reward": rw}
+    if name in ("POO", "GPO") and draw(st.booleans()):
+        out["B"]["algo"]["base"] = out["A"]["algo"]["base"]
+    T = draw(st.integers(40, 150))
+    T = min(T, gen.budget_of(out["A"]["algo"]), gen.budget_of(out["B"]["algo"]))
+    return {"A": out["A"], "B": out["B"], "schedule": "AB" * T, "share_domain": True}
+
+
+@st.composite
 def process_cases(draw):
     c = draw(gen.run_case(T_max=80, laws=LAWS, poo_ok_only=True, gpo_ok_only=True, script_prob=0.0, T_min=20))
     c["process"] = True
@@ -379,4 +416,5 @@ def run_shard(ctx):
     quick = ctx.tier == "quick"
     ctx.drive("repeat", repeat_cases(ctx.tier), check_case, ctx.budget(2400, 30000))
     ctx.drive_machine("interleave", make_machine(ctx.col, "interleave"), ctx.budget(1600, 16000), steps=20 if quick else 40)
+    ctx.drive("twins", twin_cases(ctx.tier), check_case, ctx.budget(640, 6000))
     ctx.drive("process", process_cases(), check_case, ctx.budget(96, 960))
